@@ -170,6 +170,15 @@ namespace {
                pp.print_locations = loc != 0;
                try { pp << unit; } catch (const std::logic_error&) { }
             }
+            // ... nor must looking at the pieces that are not yet attached to the unit (a class still receiving its bases
+            // and members, a mapping still receiving its parameters, a block still receiving its statements and handlers)
+            for (std::size_t i = 0; i < made.size(); ++i) {
+               auto* e = dynamic_cast<const ipr::Expr*>(made[i]);
+               if (e == nullptr) continue;
+               std::ostringstream scratch;
+               ipr::Printer pp{ lex, scratch };
+               try { pp << ipr::xpr_expr(*e); } catch (const std::logic_error&) { }
+            }
          }
          ++steps;
       }
